@@ -238,11 +238,22 @@ def timer_rules(ctx):
     n_per = n_one = 0
     for r in _timer_loop_runs(ctx, j):
         for i, e in r.effects():
-            if e.kind == "aug" and e.target[0] == "sub" and e.target[2] == ("c", "deadline") and e.extra == "+":
+            local_form = False
+            if e.kind == "store" and e.target[0] == "sub" and e.target[2] == ("c", "deadline") and e.target[1][0] != "dict" and \
+                    any(x.kind == "call" and x.value[1][0] == "sub" and x.value[1][2] == ("c", "callback") for _, x in r.effects()):
+                # catch-up done on a local and stored once: stored value = old deadline + k * period (k >= 1 on this path)
+                d_ = affine_diff(e.value, sub(e.target[1], "deadline"))
+                if d_ is not None and d_[1] == 0 and len(d_[0]) == 1 and list(d_[0]) == [sub(e.target[1], "delta_time")] and list(d_[0].values())[0] >= 1:
+                    local_form = True
+                elif d_ is not None and not (d_[1] == 0 and not d_[0]):
+                    n_per += 1
+                    ctx.violated("R-TIMER-PERIOD", j, "periodic re-arm adds whole periods", "deadline re-armed to %s, expected old deadline + whole periods" % pretty(e.value)[:80], e.node)
+                    continue
+            if local_form or (e.kind == "aug" and e.target[0] == "sub" and e.target[2] == ("c", "deadline") and e.extra == "+"):
                 ev = e.target[1]
                 n_per += 1
                 inst = "periodic re-arm adds whole periods"
-                if e.value != sub(ev, "delta_time"):
+                if not local_form and e.value != sub(ev, "delta_time"):
                     ctx.violated("R-TIMER-PERIOD", j, inst, "deadline advanced by %s, expected the registration's period" % pretty(e.value), e.node)
                 else:
                     ctx.holds("R-TIMER-PERIOD", inst)
